@@ -34,6 +34,7 @@ class Stage:
         self.stats = {}
         self.notes = []
         self.ok = True
+        self.per_key = {}
 
     def case(self, key, nontrivial=True, sample=None):
         self.evaluations += 1
@@ -44,7 +45,9 @@ class Stage:
 
     def violation(self, key, what, replay, no_input=False):
         self.ok = False
-        if len(self.violations) < 25:
+        # at most five per kind of failure -- never a global cap: a known finding must not crowd out a new kind of violation
+        self.per_key[key] = self.per_key.get(key, 0) + 1
+        if self.per_key[key] <= 5:
             self.violations.append(Violation(key, what, replay, no_input))
 
     def count(self, k, n=1):
